@@ -552,6 +552,13 @@ theorem step_queued (s : State) (op : Op) (h : Queued s) : Queued (step s op).1 
     split
     · exact (h.frame (setConn_qframe none s c _)).frame (QFrame.of_eq rfl rfl rfl)
     · exact h
+  | connFail c =>
+    simp only [step]
+    split
+    · split
+      · exact (h.frame (setConn_qframe none s c _)).frame (QFrame.of_eq rfl rfl rfl)
+      · exact h
+    · exact h
   | run => exact runAll_queued _ s h
   | tick ms => exact h.frame (QFrame.of_eq rfl rfl rfl)
   | mark => exact h
